@@ -595,7 +595,7 @@ var histAllParseKinds = []string{"alias-added", "command-renamed", "required-set
 func histChoiceCfg() *DeclCfg {
 	return &DeclCfg{
 		MaxDepth: 2, MaxFan: 2, PCmds: 50, Types: []TypeSpec{{K: KString}, {K: KInt}, {K: KString, W: WSlice}, {K: KUint8}, {K: KDuration}, {K: KString, W: WPtr}, {K: KBool}},
-		OptsMin: 1, OptsMax: 3, SubGroupsMax: 1, NestMax: 1, PNamespace: 30, PLongOnly: 30, PChoices: 80, PByTag: 50, PExec: 30, PSubOptional: 60,
+		OptsMin: 1, OptsMax: 3, SubGroupsMax: 1, NestMax: 1, PNamespace: 30, PLongOnly: 30, PChoices: 80, PLongChoices: 30, PByTag: 50, PExec: 30, PSubOptional: 60,
 		ParserOpts: []flags.Options{0, flags.PassDoubleDash, flags.IgnoreUnknown},
 	}
 }
